@@ -467,7 +467,8 @@ def trace_spectrogram(step, w, h, t0):
 # ---------------------------------------------------------------------- registration
 _SIMP = ("SE.Audio.rangePlan, SE.Audio.timeRangePlan, SE.Audio.clipPlan, SE.Audio.recordingPlan, "
          "SE.Audio.RangePlan.toTuple, SE.Audio.ClipPlan.toTuple, SE.Audio.rangeCount_cast, "
-         "SE.Audio.resamplePlanTuple, SE.Audio.resamplePlan, SE.Audio.stftPlan, SE.Audio.StftPlan.toTuple")
+         "SE.Audio.resamplePlanTuple, SE.Audio.resamplePlan, SE.Audio.stftPlan, SE.Audio.StftPlan.toTuple, "
+         "SE.Audio.floor_zero, SE.Audio.ceil_zero, SE.Audio.truncZ_zero")
 
 
 def _tactic(name):
